@@ -182,6 +182,9 @@ def base_cfg(g, t0, opts=None):
            'daemon_uid': 0, 'dirperm': g.r.getrandbits(32)}
     if g.chance(0.3):
         cfg['readfrag'] = [g.pick([1, 7, 64, 1000, 4096, 0]) for _ in range(g.rint(1, 4))]
+    # time the daemon spends inside posix_spawn(): a slow or stalled node
+    if g.chance(opts.get('p_spawncost', 0.5)):
+        cfg['spawncost'] = [g.pick([0.05, 0.2, 0.6]), g.pick([0.3, 1.5, 4.0, 20.0])]
     return cfg
 
 
